@@ -11,6 +11,7 @@ import (
 	"flag"
 	"fmt"
 	"io/ioutil"
+	"math/bits"
 	"math/rand"
 	"os"
 	"path/filepath"
@@ -307,6 +308,66 @@ func (a *advCtx) attack(d []byte, q uint64) {
 		m4 := cloneMR(g) // key digest left as the original one
 		emit("other_digest_key_kept", m4, d2)
 	}
+	// --- the path supplies a node ON the way from the root to the leaf (a collapsed subtree):
+	//     every node hash the adversary knows (siblings of other genuine proofs at the same
+	//     version, the root = the public snapshot digest) is placed at its own position, the
+	//     entries below it are dropped, and the answer is presented for the genuine digest, for
+	//     prefix-sharing other digests and for other claimed versions under the same ancestor
+	if g.Exists && g.ActualVersion <= g.QueryVersion && int(g.QueryVersion) <= cur {
+		qv2 := g.QueryVersion
+		known := map[string]hashing.Digest{}
+		for i := 0; i <= int(qv2) && i < n; i++ {
+			if og := a.genuine(r.log[i], qv2); og != nil {
+				for k, v := range og.History {
+					known[k] = v
+				}
+			}
+		}
+		depth := bits.Len64(qv2)
+		known[fmt.Sprintf("0|%d", depth)] = r.snaps[qv2].s.HistoryDigest
+		for h := 1; h <= depth; h++ {
+			idx := (g.ActualVersion >> uint(h)) << uint(h)
+			key := fmt.Sprintf("%d|%d", idx, h)
+			hv, ok := known[key]
+			if !ok {
+				continue
+			}
+			collapsed := func(keepBelow bool) *protocol.MembershipResult {
+				m := cloneMR(g)
+				if !keepBelow {
+					for k := range m.History {
+						var ki, kh uint64
+						if _, err := fmt.Sscanf(k, "%d|%d", &ki, &kh); err == nil && kh < uint64(h) && ki >= idx && ki < idx+(1<<uint(h)) {
+							delete(m.History, k)
+						}
+					}
+				}
+				m.History[key] = hv
+				return m
+			}
+			for _, keep := range []bool{false, true} {
+				emit("ancestor_in_path", collapsed(keep), d)
+				for _, p := range []int{255, 250, 240, 233, 232, 100, 30, 24} {
+					d2 := flipBit(d, p)
+					if !a.inUniverse(d2) {
+						continue
+					}
+					m := collapsed(keep)
+					m.KeyDigest = d2
+					emit("ancestor_in_path+other_digest", m, d2)
+				}
+				// another leaf under the same ancestor claimed as the version of the event
+				for _, a2 := range []uint64{idx, idx + (1 << uint(h)) - 1, g.ActualVersion ^ 1} {
+					if a2 != g.ActualVersion && a2 <= qv2 {
+						m := collapsed(keep)
+						m.ActualVersion = a2
+						emit("ancestor_in_path+actual", m, d)
+					}
+				}
+			}
+		}
+	}
+
 	// --- key digest of wrong length
 	for _, ln := range []int{0, 1, 31, 33, 64} {
 		m = cloneMR(g)
@@ -447,7 +508,7 @@ func (a *advCtx) attackIncr(s, e uint64) {
 				panic("decode-error")
 			}
 			return protocol.ToIncrementalProof(back, symhash.New).Verify(
-				&balloon.Snapshot{HistoryDigest: r.snaps[sv].s.HistoryDigest}, &balloon.Snapshot{HistoryDigest: r.snaps[evn].s.HistoryDigest})
+				r.snaps[sv].s, r.snaps[evn].s) // the whole authentic snapshots, as a client holds them
 		})
 		if o.Res == "panic" && o.Msg == "decode-error" {
 			o = outcome{Res: "decode-error"}
